@@ -52,8 +52,22 @@ Place3 == Place
 Seal == /\ done /\ ~placed /\ Len(cms) >= 1 /\ placed' = TRUE
         /\ UNCHANGED <<stack, hist, done, target, cms>>
 
+\* a simple keyword the grammar accepts but the schema of the enclosing object does not list (old or custom
+\* spellings): still "a line holding a single simple keyword", so its end-of-line # comment is claimed
+UnknownKeys == {"symbolscale", "overlaysymbol", "cachekey"}
+UnknownAttr ==
+    /\ ~done /\ Steps < target
+    /\ \E k \in Pick(UnknownKeys), i \in Pick(Ids), kc \in Pick(Cases) :
+         /\ ~HasKey(Top.d, k)
+         \* (a word the lexer does not know right behind a SYMBOL opener reads as the value of a SYMBOL keyword:
+         \* the parser's SYMBOL look-ahead; such documents are outside every quantifier)
+         /\ Top.type # "symbol"
+         /\ \A s \in SlotsBy[Top.type] : s[2] # k
+         /\ Apply([a |-> "attr", key |-> k, kc |-> kc, val |-> [sh |-> "int", id |-> i], post |-> <<>>])
+    /\ UNCHANGED <<done, target, cms, placed>>
+
 CInit == Init /\ cms = <<>> /\ placed = FALSE
-CNext == (Build /\ UNCHANGED <<cms, placed>>) \/ (Finish /\ UNCHANGED <<cms, placed>>) \/ Place \/ Place2 \/ Place3 \/ Seal
+CNext == (Build /\ UNCHANGED <<cms, placed>>) \/ UnknownAttr \/ (Finish /\ UNCHANGED <<cms, placed>>) \/ Place \/ Place2 \/ Place3 \/ Seal
 
 CEmit == placed => PrintT(ToJson([hist |-> hist, comments |-> cms]))
 
